@@ -75,7 +75,9 @@ def execute(history: list) -> dict:
     from optuna.trial import TrialState
 
     st_of = {"COMPLETE": TrialState.COMPLETE, "PRUNED": TrialState.PRUNED, "FAIL": TrialState.FAIL}
-    study = optuna.create_study(sampler=optuna.samplers.RandomSampler(seed=0))
+    storage = optuna.storages.InMemoryStorage()
+    common.decoy(storage, len(history) % 3)
+    study = optuna.create_study(storage=storage, sampler=optuna.samplers.RandomSampler(seed=0))
     inc = {ip: IntersectionSearchSpace(include_pruned=bool(ip)) for ip in (0, 1)}
     grp = {ip: _GroupDecomposedSearchSpace(include_pruned=bool(ip)) for ip in (0, 1)}
     live = {}  # number -> Trial
